@@ -18,6 +18,9 @@ from .impl_thr import CALLS, _CountHandler, err_kind, py_tags, py_timing
 _TOOL = 3  # sys.monitoring tool id
 
 
+_STUCK = {"n": 0, "why": None}
+
+
 class _TrackedSet(set):
     """the registry under observation: every in-place mutation is reported as a write (results of `-`, `|`, `.copy()`
     are plain sets again)"""
@@ -336,6 +339,12 @@ class ConcRunner:
 
     def run(self):
         scn = self.scn
+        if _STUCK["n"] >= 2:
+            # this implementation blocks the controller again and again (45 s of real time each): the remaining controlled
+            # scenarios of this process are not attempted - the tie is broken, which is what gets reported
+            return {"uncontrollable": _STUCK["why"], "deadlock": None, "error": None, "records": [], "invocations": [], "schedule": [],
+                    "edges": [], "wait_violations": [], "left_holding": [], "selected": {}, "init": [], "final": [], "jobs": {},
+                    "registry_discipline": [], "trace_len": 0, "max_parallel": 0, "self_overlap": False, "logs": 0}
         rng = random.Random(scn.get("sched", {}).get("seed", 0))
         kind = scn.get("sched", {}).get("kind", "random")
         if kind == "replay":
@@ -449,6 +458,9 @@ class ConcRunner:
         finally:
             if getattr(ctrl, "foreign", None):
                 self.uncontrollable = ctrl.foreign
+                if "stuck" in str(ctrl.foreign):
+                    _STUCK["n"] += 1
+                    _STUCK["why"] = ctrl.foreign
             for t_ in ctrl.threads:
                 if t_.exc is not None and coop.is_shim_error(t_.exc):
                     self.uncontrollable = f"{type(t_.exc).__name__}: {t_.exc}"
